@@ -309,6 +309,9 @@ def numeric(ctx, rng):
         si = float(rng.choice([1.0, 0.002, 1 / 30000]))
         fn = 0.5 / si
         b = sorted(rng.uniform(0.05, 0.95, size=4) * fn)
+        if rng.random() < 0.5:
+            # the two tapers of the band-pass overlap (b[1] > b[2]): "band-pass is their product" does not ask for sorted corners
+            b = [[b[0], b[2], b[1], b[3]], [b[0], b[3], b[1], b[2]], [b[1], b[3], b[0], b[2]]][int(rng.integers(3))]
         x = rng.standard_normal(sh)
         ctx.count(3)
         try:
